@@ -1180,6 +1180,10 @@ def const_label(F, body, op, depth=0):
                     return ('array',) + vals
                 if rv['k'] == 'repeat' and 'c' in rv['a']:
                     return ('repeat', rv['a']['c'].get('v'), rv['n'])
+                if rv['k'] == 'use' and 'c' in rv['a']:
+                    s2 = rv['a']['c'].get('s') or ''
+                    if s2.replace('const ', '').startswith(('"', 'b"')):
+                        return ('lit', s2.replace('const ', ''))
             return None
         s = c.get('s')
         if s and (s.startswith('b"') or s.startswith('"') or s.startswith('const b"') or s.startswith('const "')):
@@ -1333,4 +1337,86 @@ def present_edges(body, call):
         if ts.src_local is not None and ts.cont is not None and ts.sw_block is not None:
             if is_it(ts.src_local) or (ts.src_def is not None and ts.src_def.kind == 'call' and ts.src_def.call is call):
                 out.append((ts.sw_block, ts.cont))
+    return out
+
+
+ZEROIZE = r'zeroize::Zeroize::zeroize$|::zeroize$'
+
+
+def zeroizing_params(F, g, depth=0):
+    """Indices (1-based) of the `&mut` parameters of function / closure g that g zeroizes (directly)."""
+    from .facts import copy_chain_sources as ccs
+    out = set()
+    for c in g.calls(ZEROIZE):
+        if not c.args or not is_place(c.args[0]):
+            continue
+        for s in ccs(g, c.args[0], through_calls=IDENTITY_CALLS):
+            if s[0] == 'param' and g.local_ty(s[1]).startswith('&mut'):
+                out.add(s[1])
+    return out
+
+
+def use_after_zeroize(F, body):
+    """[(local, zeroizing call, block of the later use)]: a local wiped by `zeroize()` (directly, or by a closure / crate function
+    that zeroizes the `&mut` it is given) and then used again without having been assigned a new value."""
+    out = []
+    sites = []
+    for c in body.calls():
+        if c.is_(ZEROIZE) and c.args and is_place(c.args[0]):
+            pl = body.through_ref(op_place(c.args[0]) if op_place(c.args[0])['p'] else {'l': op_local(c.args[0]), 'p': ['*']})
+            if not [x for x in pl['p'] if x != '*'] and not body.is_param(pl['l']):
+                sites.append((c, pl['l']))
+            continue
+        callees = [cb for (_i, cb, _rv) in closure_args(F, c)] if c.is_(r'^std::ops::Fn(Mut|Once)?::call') else []
+        g = local_callee(F, c)
+        if g is not None:
+            callees.append(g)
+        for g in callees:
+            zp = zeroizing_params(F, g)
+            if not zp:
+                continue
+            # arguments of a closure call are packed in a tuple (args[1]); of a plain call they are positional
+            if c.is_(r'^std::ops::Fn(Mut|Once)?::call') and len(c.args) > 1 and is_place(c.args[1]):
+                _, d = resolve_copy(body, op_local(c.args[1]))
+                ops = d.rv['ops'] if d is not None and d.kind == 'assign' and d.rv['k'] == 'agg' else []
+                pairs = [(i + 2, o) for i, o in enumerate(ops)]
+            else:
+                pairs = [(i + 1, o) for i, o in enumerate(c.args)]
+            for (pi, o) in pairs:
+                if pi in zp and is_place(o):
+                    pl = body.through_ref({'l': op_local(o), 'p': ['*']})
+                    if not [x for x in pl['p'] if x != '*'] and not body.is_param(pl['l']):
+                        sites.append((c, pl['l']))
+    defs = body.defs()
+    for (c, x) in sites:
+        redef = set(d.b for d in defs.get(x, []) if d.kind in ('assign', 'call') and d.via is None and d.lhs is not None and not d.lhs['p'])
+        start = [s for s in body.succs[c.b]]
+        r = body.reach(start, avoid_blocks=redef) if start else set()
+        for b in sorted(r):
+            used = False
+            for st in body.stmts(b):
+                for pl in _places_in(st['rv']):
+                    if pl['l'] == x:
+                        used = True
+            t = body.term(b)
+            if t['k'] == 'call':
+                for a in t['args']:
+                    if is_place(a) and op_place(a)['l'] == x:
+                        used = True
+            if used:
+                out.append((x, c, b))
+                break
+    return out
+
+
+def _places_in(x):
+    out = []
+    if isinstance(x, dict):
+        if 'l' in x and 'p' in x and isinstance(x.get('l'), int) and isinstance(x.get('p'), list):
+            out.append(x)
+        for v in x.values():
+            out += _places_in(v)
+    elif isinstance(x, list):
+        for v in x:
+            out += _places_in(v)
     return out
